@@ -88,6 +88,17 @@ def seed_for(base, pid, name, shard):
     return (int.from_bytes(h[:6], "big") | 1)
 
 
+def limit_memory():
+    """one runaway case must not take the machine (and the other shards) down: cap the address space of a test process;
+    the Go runtime then aborts with 'fatal error: runtime: out of memory', which the driver maps to INCONCLUSIVE."""
+    import resource
+    gb = int(os.environ.get("VERIF_MEM_GB", "24"))
+    try:
+        resource.setrlimit(resource.RLIMIT_AS, (gb << 30, gb << 30))
+    except Exception:
+        pass
+
+
 class Result:
     def __init__(self):
         self.violations = []   # (property, replay path, text)
@@ -115,7 +126,8 @@ def run_procs(jobs, res, timeout):
         while pending and len(running) < maxpar:
             name, argv, env, cwd, req = pending.pop(0)
             logf = open(env["VERIF_LOG"], "w")
-            p = subprocess.Popen(argv, cwd=cwd, env=env, stdout=logf, stderr=subprocess.STDOUT)
+            limit = None if env.get("VERIF_RACE_BUILD") else limit_memory  # the race runtime reserves terabytes of address space
+            p = subprocess.Popen(argv, cwd=cwd, env=env, stdout=logf, stderr=subprocess.STDOUT, preexec_fn=limit)
             running.append((name, p, logf, env, req))
         time.sleep(0.05)
         still = []
@@ -330,6 +342,8 @@ def check(pid, tier):
             env["VERIF_SHARD"] = "%s-%d-%d" % (r["test"], ri, k)
             env["VERIF_SEED_EFFECTIVE"] = str(seed_for(seed, pid, r["test"] + str(ri), k))
             env["VERIF_TIER"] = tier
+            if r.get("race"):
+                env["VERIF_RACE_BUILD"] = "1"
             argv = [binary, "-test.run", "^%s$" % r["test"], "-test.v", "-test.timeout", "%ds" % timeout,
                     "-rapid.checks=%d" % r.get("checks", 100), "-rapid.seed=%d" % seed_for(seed, pid, r["test"] + str(ri), k),
                     "-rapid.nofailfile", "-rapid.shrinktime=%s" % r.get("shrinktime", "20s")]
